@@ -66,7 +66,11 @@ static void run(Ctx& c) {
     Shape sh = rel ? randomShape(r, 1, 4, 4, 30) : randomShape(r, 1, 5, 5, 500);
     std::vector<FSpec> kinds = allKinds(rel);
     MEDDLY::initialize();
-    World w(sh);
+    // one relation case in five: the primed bound of one or two variables is larger than the unprimed bound
+    // (domain::enlargeVariableBound(v, true, b)): primed and unprimed levels of a variable then have different sizes
+    Shape shP = sh;
+    if (rel && r.chance(1, 5)) { int k = r.range(1, 2); for (int i = 0; i < k; i++) shP.sizes[size_t(r.range(1, sh.n()))] += r.range(1, 2); c.count("cases_with_larger_primed_bounds"); }
+    World w(sh, shP);
     // a few forests: source, target, and a second object of the source kind (round trips land in the source forest)
     FSpec fsA = kinds[r.below(kinds.size())], fsB = kinds[r.below(kinds.size())];
     if (r.chance(1, 6)) fsB = fsA;                       // same kind and rule, distinct object
@@ -95,7 +99,7 @@ static void run(Ctx& c) {
         c.count("points_evaluated", long(got.size()));
         for (size_t i = 0; i < got.size(); i++) if (skip[i]) want[i] = got[i];
         long d = firstBad(ta, got, want, skip, fsA, fsB, tolB);
-        if (d >= 0) throw Violation(wrongKey(fsA, fsB, ta[size_t(d)], got[size_t(d)], ""), "shape " + sh.str() + " " + fsA.str() + " -> " + fsB.str() + " A=" + tableStr(ta, 32) + ": at " +
+        if (d >= 0) throw Violation(wrongKey(fsA, fsB, ta[size_t(d)], got[size_t(d)], ""), "shape " + sh.str() + (w.asymmetric() ? " primed " + shP.str() : std::string()) + " " + fsA.str() + " -> " + fsB.str() + " A=" + tableStr(ta, 32) + ": at " +
                                     pointStr(w, rel, size_t(d)) + " source=" + ta[size_t(d)].str() + " copy=" + got[size_t(d)].str() + " model=" + want[size_t(d)].str());
         c.count("unspecified_points_skipped", nskip);
         // source unchanged
@@ -126,7 +130,7 @@ static void run(Ctx& c) {
             for (size_t i = 0; i < ta.size(); i++) { if (skip2[i]) continue; Val t; if (conv(got[i], fsB, fsA, t) == CV_SKIP) { skip2[i] = true; continue; } backFromGot[i] = t; }
             for (size_t i = 0; i < got2.size(); i++) if (skip2[i]) backFromGot[i] = got2[i];
             long d2 = firstBad(got, got2, backFromGot, skip2, fsB, fsA, tolA);
-            if (d2 >= 0) throw Violation(wrongKey(fsB, fsA, got[size_t(d2)], got2[size_t(d2)], "(round-trip)"), "shape " + sh.str() + " " + fsA.str() + " -> " + fsB.str() + " -> back, A=" + tableStr(ta, 32) +
+            if (d2 >= 0) throw Violation(wrongKey(fsB, fsA, got[size_t(d2)], got2[size_t(d2)], "(round-trip)"), "shape " + sh.str() + (w.asymmetric() ? " primed " + shP.str() : std::string()) + " " + fsA.str() + " -> " + fsB.str() + " -> back, A=" + tableStr(ta, 32) +
                                          ": at " + pointStr(w, rel, size_t(d2)) + " in-target=" + got[size_t(d2)].str() + " got=" + got2[size_t(d2)].str() + " model=" + backFromGot[size_t(d2)].str());
             c.count("round_trips");
             // exact-lane: identical edge required when nothing is lost and no real rounding is involved
@@ -134,7 +138,7 @@ static void run(Ctx& c) {
             if (exactLane && fsB.isReal()) for (auto& v : ta) if (!v.isInf() && std::labs(v.i) > 4096) exactLane = false;
             if (exactLane) {
                 c.count("round_trips_lossless");
-                if (eback != ea) throw Violation("C10:COPY:" + pair + ":round-trip-not-identical", "shape " + sh.str() + " " + fsA.str() + " -> " + fsB.str() + " -> back: lossless round trip returned a different edge, A=" + tableStr(ta, 32));
+                if (eback != ea) throw Violation("C10:COPY:" + pair + ":round-trip-not-identical", "shape " + sh.str() + (w.asymmetric() ? " primed " + shP.str() : std::string()) + " " + fsA.str() + " -> " + fsB.str() + " -> back: lossless round trip returned a different edge, A=" + tableStr(ta, 32));
             }
         }
         bool nonconst = false; for (auto& x : ta) if (!valEq(x, ta[0])) nonconst = true;
